@@ -318,11 +318,11 @@ def plan(tier, seed, jobs):
     specs = []
     if tier == "quick":
         for j in range(jobs - 4):
-            specs.append({"kind": "hostile", "n": 200, "seed": seed, "j": j, "budget_s": 50, "observer": "inotify"})
+            specs.append({"kind": "hostile", "n": 200, "seed": seed, "j": j, "budget_s": 40, "observer": "inotify"})
         for j in range(2):
-            specs.append({"kind": "hostile", "n": 100, "seed": seed, "j": 100 + j, "budget_s": 50, "observer": "polling"})
+            specs.append({"kind": "hostile", "n": 100, "seed": seed, "j": 100 + j, "budget_s": 40, "observer": "polling"})
         for j in range(3):
-            specs.append({"kind": "faults", "n": 150, "seed": seed, "j": j, "budget_s": 50})
+            specs.append({"kind": "faults", "n": 150, "seed": seed, "j": j, "budget_s": 40})
         specs.append({"kind": "selfstop", "reps": 2, "seed": seed, "budget_s": 60})
         specs.append({"kind": "arrival", "errnos": [errno.ENOENT], "seed": seed, "budget_s": 60})
         for j in range(3):
